@@ -68,7 +68,15 @@ def r2(run):
             run.ob("%s|filter-drops-expired" % C.READ_SYNC, bool(vals) and all(q.bool_under(v, cond, True) is False for v in vals), cb.sp,
                    "on the expired edge the filter returns false (%s)" % [fmt(v) for v in vals], reason="expired-frame-returned")
             # ... and ONLY expired frames are dropped: every other path keeps the frame
-            keep = [strip(e2) for (rb, e2, raw) in cb.return_defs() if rb == 0 or q.reaches(cb, 0, rb, removed_edges=t_edges)]
+            # a narrowing the caller asked for (an optional read option that is Some: `topic`, `since-ms`) may drop frames too; with
+            # the option absent the filter keeps every live frame
+            opt_in = []
+            for bb2, si2 in cb.switches():
+                if si2["kind"] == "variant" and any(y[0] == "env" for y in walk(si2["cond"])) and not any(y[0] == "arg" for y in walk(si2["cond"])) \
+                        and not q.has_field(si2["cond"], "ttl"):
+                    opt_in += q.edge_triples(cb, bb2, lambda m: m == "Some")
+            keep = [strip(e2) for (rb, e2, raw) in cb.return_defs() if (rb == 0 or q.reaches(cb, 0, rb, removed_edges=t_edges))
+                    and not (opt_in and q.dominated(cb, rb, via_edges=opt_in))]
             run.ob("%s|filter-keeps-live" % C.READ_SYNC, bool(keep) and all(q.bool_under(v, cond, False) is True for v in keep), cb.sp,
                    "on every path where the frame is not expired the filter returns true (%s)" % [fmt(v) for v in keep], reason="live-frame-dropped")
 
@@ -173,7 +181,7 @@ def r3(run):
 def r4(run):
     callers = C.callers_of(run.facts, C.ITER_FRAMES)
     run.floor("Store::iter_frames call sites", len(callers), 2)
-    allowed = {C.READ_SYNC, C.READ}
+    allowed = {C.READ_SYNC, C.READ} | set(C.delegates_of(run.facts, C.READ_SYNC)) | set(C.delegates_of(run.facts, C.READ))
     for (b, c) in callers:
         fn = run.facts.enclosing_fn(b)
         run.ob("%s|call:iter_frames" % fn, fn in allowed, c.sp, "the raw iterator is consumed only by read_sync and the history scan (both apply the expiry guard): %s" % fn,
